@@ -90,6 +90,20 @@ def handle (line : String) : String :=
       match extractIr t.toList with
       | none => pure "none"
       | some (ir, w) => pure (showNatL ir ++ " | " ++ showNatL w)
+    | "moment" =>
+      -- moment order nq nb fmin fmax w(nq) freqs(nq*nb)
+      let (order, c) ← c.nat?
+      let (nq, c) ← c.nat?
+      let (nb, c) ← c.nat?
+      let (fmin, c) ← c.rat?
+      let (fmax, c) ← c.rat?
+      let (w, c) ← c.nats? nq
+      let (fr, c) ← c.rats? (nq * nb)
+      if !c.atEnd then none
+      let freqs : List (List Rat) := (List.range nq).map fun q => (List.range nb).map fun b => fr.getD (q * nb + b) 0
+      let den := weightedSum w.toList (freqs.map (powerSum 0 fmin fmax))
+      if den = 0 then pure "empty-window" else
+      pure (showRat (moment order fmin fmax w.toList freqs))
     | "wsum" =>
       let (n, c) ← c.nat?
       let (w, c) ← c.nats? n
